@@ -177,7 +177,12 @@ pub fn render(v: &Val, ctx: &mut Ctx) -> TokenStream {
             }
             if (what == "call Index::from" || what == "call Index :: from") && deps.len() == 1 { return render(&deps[0], ctx); }
             if what == "call Ident::new" && !deps.is_empty() { return std::iter::once(ident(&text_of(&deps[0], ctx))).collect(); }
-            if matches!(what.as_str(), ".to_string" | ".strip_prefix" | ".unwrap_or" | ".trim_start_matches" | ".unraw") {
+            if what == ".strip_prefix" {
+                // `Option<&str>` interpolated as it is: prints the name only when the prefix was there, nothing otherwise
+                ctx.notes.push("a name is interpolated as the Option returned by strip_prefix (no fallback for names without the prefix)".into());
+                return std::iter::once(ident("__o_option_name")).collect();
+            }
+            if matches!(what.as_str(), ".to_string" | ".unwrap_or" | ".trim_start_matches" | ".unraw") {
                 // the printed name of an identifier (possibly with `r#` removed): a string literal naming the leaf
                 let mut found: Option<String> = None;
                 fn first_sym(v: &Val, out: &mut Option<String>) { if out.is_some() { return; } match v { Val::Sym { path, .. } => *out = Some(path.clone()), Val::Opaque { deps, .. } => { for d in deps { first_sym(d, out); } } Val::Tmpl(t) => { for (_, h) in &t.holes { first_sym(h, out); } } _ => {} } }
